@@ -41,6 +41,13 @@ def leq(e, g, close=False):
             return bool(np.datetime64(g[1]) == np.array(e[2], dtype=f'M8[{e[1]}]'))
         except Exception:
             return False
+    if e[0] == 'td64' and g[0] == 'other' and g[1] == 'timedelta' and e[2] != canon.NAT:
+        # NumPy's object conversion presents timedelta64 as datetime.timedelta (canon has no kind for it)
+        try:
+            td = eval(g[2], {'__builtins__': {}}, {'datetime': datetime})
+            return bool(np.timedelta64(td) == np.timedelta64(e[2], e[1]))
+        except Exception:
+            return False
     if e[0] == g[0] == 'tuple' and len(e[1]) == len(g[1]):
         return all(leq(x, y, close) for x, y in zip(e[1], g[1]))
     return False
@@ -89,6 +96,27 @@ def unique_status(labels):
     return status
 
 
+def _hkey(x):
+    """Key under which an index would hash a label element: numbers that compare equal
+    (1, 1.0, True, 1+0j) collapse; everything else keeps its canonical form."""
+    c = x if (isinstance(x, tuple) and x and isinstance(x[0], str) and x[0] in _ALLK) else cs(x)
+    if c[0] in _NUMK:
+        try:
+            v = _numv(c)
+            if v == v:
+                return ('num', complex(v))
+        except Exception:
+            pass
+    return c
+
+
+_SELF_UNEQUAL = {('float', canon.NAN), ('dt64', 'D', canon.NAT), ('dt64', 's', canon.NAT), ('dt64', 'ns', canon.NAT),
+                 ('dt64', 'M', canon.NAT), ('dt64', 'Y', canon.NAT), ('td64', 'D', canon.NAT), ('td64', 's', canon.NAT)}
+
+_ALLK = {'None', 'bool', 'int', 'float', 'complex', 'str', 'bytes', 'dt64', 'td64', 'datetime', 'date', 'tuple', 'list', 'array',
+         'frozenset', 'other'}
+
+
 def is_tree(tuples):
     """Equal-depth tuples are tree-shaped when, at every depth, equal prefixes are
     contiguous (what a hierarchical index requires of labels in the given order)."""
@@ -98,7 +126,9 @@ def is_tree(tuples):
     for d in range(1, depth):
         seen, prev = set(), object()
         for t in tuples:
-            pre = tuple(cs(x) for x in t[:d])
+            pre = tuple(_hkey(x) for x in t[:d])
+            if any(k in _SELF_UNEQUAL for k in pre):
+                return False   # NaN / NaT never equals an earlier label: not reliably a tree
             if pre != prev:
                 if pre in seen:
                     return False
